@@ -13,7 +13,7 @@ N5 == <<"5">>
 E11 == <<"1", "+", "1">>
 Enter == S("enter", "", UNSET, "")
 Leave == S("leave", "", UNSET, "")
-Writers == {"plain", "arith", "read", "printfv", "for", "defasg", "append", "elem"}
+Writers == {"plain", "arith", "read", "printfv", "for", "defasg", "append", "elem", "getopts", "mapfile"}
 Alphabet ==
   CASE Profile = "scope" -> {S("asg", "x", A, "plain"), S("asg", "x", B, "plain"), S("asg", "y", A, "plain"), S("local", "x", A, ""), S("local", "x", UNSET, ""), S("local", "y", B, ""),
                               S("unset", "x", UNSET, ""), S("unset", "y", UNSET, ""), Enter, Leave, S("tenter", "x", B, ""), S("tenter", "y", N5, "")}
@@ -21,7 +21,8 @@ Alphabet ==
                            S("mark", "x", A, "x"), S("mark", "x", UNSET, "i")}
                           \cup {S("asg", "x", A, w) : w \in Writers \ {"arith"}} \cup {S("asg", "x", N5, "arith")}
     [] Profile = "attr" -> {S("mark", "x", UNSET, a) : a \in {"i", "u", "l", "x"}} \cup {S("mark", "x", E11, "i"), S("mark", "x", A, "u"), S("mark", "x", B, "l")}
-                            \cup {S("asg", "x", v, "plain") : v \in {A, B, N5, E11}} \cup {S("asg", "x", N5, "append"), S("asg", "x", A, "append"), S("asg", "x", B, "elem"), S("asg", "x", N5, "arith"), S("asg", "x", B, "read")}
+                            \cup {S("asg", "x", v, "plain") : v \in {A, B, N5, E11}} \cup {S("asg", "x", N5, "append"), S("asg", "x", A, "append"), S("asg", "x", B, "elem"), S("asg", "x", N5, "arith"), S("asg", "x", B, "read"),
+                                  S("asg", "x", A, "getopts"), S("asg", "x", B, "mapfile"), S("asg", "x", A, "printfv"), S("asg", "x", B, "for"), S("asg", "x", A, "defasg")}
                             \cup {S("local", "x", UNSET, "i"), S("local", "x", A, "u"), Enter, Leave, S("unset", "x", UNSET, "")}
     [] Profile = "tmpro" -> {S("mark", "x", UNSET, "r"), S("mark", "x", N5, "r"), S("tenter", "y", N5, ""), S("tenter", "x", B, ""), S("asg", "x", A, "plain"), S("asg", "x", A, "for"), S("asg", "x", N5, "arith"),
                              S("asg", "x", A, "read"), S("asg", "y", A, "plain"), S("unset", "y", UNSET, ""), S("unset", "x", UNSET, ""), S("local", "y", B, ""), S("mark", "y", UNSET, "x"), Enter, Leave}
